@@ -853,12 +853,13 @@ func (in *Interp) next(ins *ssa.Next, it *Iter) Value {
 			it.pos++
 			return Tuple{mkBool(true), Sc{C: uint64(i)}, Sc{C: b0.C}}
 		}
-		// multi-byte: pin the bytes involved
-		end := i + 4
-		if end > it.s.Len() {
-			end = it.s.Len()
+		// multi-byte (or symbolic non-ASCII): run the real utf8.DecodeRuneInString symbolically
+		if f := in.W.utf8Decode(); f != nil && it.s.T != nil {
+			res := in.callFunction(f, []Value{it.s.Slice(i, it.s.Len())}, nil).(Tuple)
+			sz := int(in.concretize(res[1].(Sc), 64, "utf8-size"))
+			it.pos += sz
+			return Tuple{mkBool(true), Sc{C: uint64(i)}, res[0]}
 		}
-		in.concretizeStr(it.s.Slice(i, end), "utf8")
 		r, sz := utf8.DecodeRuneInString(it.s.S[i:])
 		it.pos += sz
 		return Tuple{mkBool(true), Sc{C: uint64(i)}, Sc{C: canon(k32, uint64(r))}}
@@ -946,7 +947,7 @@ func (in *Interp) callBuiltin(b *ssa.Builtin, args []Value) Value {
 		if len(s)+len(add) <= cap(s) {
 			r := s[:len(s)+len(add)]
 			for i, e := range add {
-				r[len(s)+i] = copyVal(e)
+				assign(&r[len(s)+i], copyVal(e))
 			}
 			return r
 		}
@@ -988,7 +989,9 @@ func (in *Interp) callBuiltin(b *ssa.Builtin, args []Value) Value {
 		for i := 0; i < n; i++ {
 			tmp[i] = copyVal(src[i])
 		}
-		copy(dst, tmp)
+		for i := 0; i < n; i++ {
+			assign(&dst[i], tmp[i])
+		}
 		return Sc{C: uint64(n)}
 	case "len":
 		switch a := args[0].(type) {
